@@ -259,7 +259,7 @@ class VecGen:
             if st == INT:
                 value = IntLit(rng.choice([1, 2, 3, -1, -2])) if op == "/=" else self.expr(INT, env, 2, allow_calls)
             else:
-                value = FloatLit(rng.choice([0.5, 2.0, 4.0, 1.0])) if op == "/=" else self.expr(rng.choice([FLOAT, INT]), env, 2, allow_calls)
+                value = FloatLit(rng.choice([0.5, 2.0, 4.0, 1.0, 3.0, 0.7])) if op == "/=" else self.expr(rng.choice([FLOAT, INT]), env, 2, allow_calls)
         elif op in ("+=", "-="):
             value = self.expr(tt, env, 1, allow_calls)
         else:
@@ -330,7 +330,7 @@ class VecGen:
                 form = rng.choice(["vs", "sv", "div"])
                 v = self.expr(t, env, depth + 1, allow_calls)
                 if form == "div":
-                    s = IntLit(rng.choice([1, 2, 3, -2])) if st == INT else FloatLit(rng.choice([0.5, 2.0, 4.0]))
+                    s = IntLit(rng.choice([1, 2, 3, -2])) if st == INT else FloatLit(rng.choice([0.5, 2.0, 4.0, 3.0, 0.7]))
                     return Bin("/", v, s, t)
                 s = self.scalar_expr(st, env, depth + 1, allow_calls)
                 return Bin("*", v, s, t) if form == "vs" else Bin("*", s, v, t)
@@ -366,7 +366,7 @@ class VecGen:
                 form = rng.choice(["ms", "sm", "div"])
                 m_ = self.expr(t, env, depth + 1, allow_calls)
                 if form == "div":
-                    return Bin("/", m_, FloatLit(rng.choice([0.5, 2.0, 4.0])), t)
+                    return Bin("/", m_, FloatLit(rng.choice([0.5, 2.0, 4.0, 3.0, 0.7])), t)
                 s = self.scalar_expr(rng.choice([FLOAT, INT]), env, depth + 1, allow_calls)
                 return Bin("*", m_, s, t) if form == "ms" else Bin("*", s, m_, t)
             if allow_calls and not leafy and r < 0.58:
